@@ -99,12 +99,14 @@ func makeWindows(r *rand.Rand, data []byte, style string, part int, tailActual b
 		uni = 128 << 10
 	case "uniform-small":
 		uni = 4096 << r.IntN(5)
+	case "uniform-4k8k":
+		uni = 4096 << r.IntN(2)
 	}
 	off := 0
 	for off < size {
 		var l int
 		switch style {
-		case "uniform128k", "uniform-small":
+		case "uniform128k", "uniform-small", "uniform-4k8k":
 			l = uni
 		case "chunk-aligned":
 			// windows never cross a part boundary
